@@ -201,7 +201,8 @@ class Program:
                "modify_scalar", "modify_vector", "modify_callable", "modify_grouped", "select", "unselect", "rename",
                "setitem", "setattr", "setitem_scalar", "setitem_wrong_length", "delitem", "delattr", "pop", "popitem", "colnames",
                "copy", "deepcopy", "clear", "aggregate", "count", "lod_roundtrip", "json_roundtrip", "pandas_roundtrip",
-               "arrow_roundtrip", "new_kwargs", "new_from_columns", "group_by", "split", "compare_eq", "to_string", "file_roundtrip"]
+               "arrow_roundtrip", "new_kwargs", "new_from_columns", "group_by", "split", "compare_eq", "to_string", "file_roundtrip",
+               "new_mixed_lengths", "grouped_lengths_modify"]
         op = rng.choice(ops)
         nrow = canon.frame_nrow(df)
         names = list(dict.keys(df))
@@ -387,6 +388,107 @@ class Program:
                 self.trace.append(f"{i}:setitem_wrong_length:{how}")
                 self.ok_ops["setitem_wrong_length"] = self.ok_ops.get("setitem_wrong_length", 0) + 1
                 return
+            elif op == "new_mixed_lengths":
+                # construction from values of different lengths, in every argument position: length-one values (scalar, list, array,
+                # vector, a column of a one-row frame) are broadcast to the longest, anything else is rejected
+                n = rng.choice([2, 3, 3, 4, 5])
+                k = rng.randint(2, 4)
+                cnames = rng.sample(ID_NAMES, k)
+                forms = [rng.choice(["full", "full", "scalar", "len1-list", "len1-array", "len1-vector", "len1-column", "wrong"]) for _ in range(k)]
+                if "full" not in forms:
+                    forms[rng.randrange(k)] = "full"
+                if forms.count("wrong") > 1 or rng.random() < 0.6:
+                    forms = [f if f != "wrong" else "full" for f in forms]
+                values, expect = {}, {}
+                one = None
+                for cn, form in zip(cnames, forms):
+                    kind = rng.choice(["int", "float", "str", "bool", "date"])
+                    if form == "full":
+                        vals = gen.gen_values(rng, kind, n, "none")
+                        arr = gen.np_column(kind, vals)
+                        values[cn] = rng.choice([lambda a=arr: a, lambda a=arr: di.Vector(a), lambda a=arr: di.DataFrame(q=a).q])()
+                        expect[cn] = gen.expected_cells(kind, vals)
+                    elif form == "wrong":
+                        m = rng.choice([x for x in (0, 2, 3, n + 1, n - 1) if x not in (1, n)])
+                        arr = gen.np_column(kind, gen.gen_values(rng, kind, m, "none"))
+                        values[cn] = rng.choice([lambda a=arr: a, lambda a=arr: di.Vector(a), lambda a=arr: di.DataFrame(q=a).q])()
+                    else:
+                        v1 = gen.gen_values(rng, kind, 1, "none")
+                        arr = gen.np_column(kind, v1)
+                        values[cn] = {"scalar": lambda: arr[0], "len1-list": lambda: [arr[0]], "len1-array": lambda: arr, "len1-vector": lambda: di.Vector(arr),
+                                      "len1-column": lambda: di.DataFrame(q=arr).q}[form]()
+                        expect[cn] = gen.expected_cells(kind, v1) * n
+                how = rng.choice(["kwargs", "dict", "cbind"]) if all(cn.isidentifier() for cn in cnames) else "dict"
+                if how == "cbind" and any(f in ("scalar", "len1-list") for f in forms):
+                    how = "kwargs"
+                try:
+                    if how == "kwargs":
+                        out = di.DataFrame(**values)
+                    elif how == "dict":
+                        out = di.DataFrame(values)
+                    else:
+                        out = di.DataFrame().cbind(*[di.DataFrame({cn: v}) for cn, v in values.items()])
+                    failed = None
+                except Exception as e:
+                    out, failed = None, e
+                tag = f"{how}:{'+'.join(forms)}"
+                if "wrong" in forms:
+                    if failed is None:
+                        self.mon.violate("C01", "construct:wrong-length-accepted", f"DataFrame from lengths {tag} (n={n}) did not raise; got {canon.short(canon.frame_cells(out), 400)}")
+                    self.mon.count("construct-wrong-length-rejected")
+                else:
+                    if failed is not None:
+                        self.mon.violate("C01", f"construct:length-one-not-broadcast:raised:{exc_name(failed)}", f"DataFrame from {tag} (n={n}) raised {failed!r}; values {canon.short({k_: (np.asarray(v).tolist() if not np.isscalar(v) else v) for k_, v in values.items()}, 400)}")
+                    else:
+                        self.mon.check_frame(out, ("new_mixed_lengths", "result"), self.builtin)
+                        cells = canon.frame_cells(out)
+                        if list(cells) != cnames or any(not canon.cells_eq(cells[cn], expect[cn], widen=True) for cn in cnames):
+                            self.mon.violate("C01", "construct:length-one-not-broadcast:values", f"DataFrame from {tag} (n={n}): {canon.short(cells, 500)} expected {canon.short(expect, 500)}")
+                        self.add(out)
+                    self.mon.count("construct-mixed-lengths-checked")
+                self.trace.append(f"{i}:new_mixed_lengths:{tag}")
+                self.ok_ops[op] = self.ok_ops.get(op, 0) + 1
+                return
+            elif op == "grouped_lengths_modify":
+                # group-wise modify: a function's result is broadcast within its group when it is of length one and rejected when of any other wrong length
+                cols = [c for c in names if canon.dtype_kind(dict.__getitem__(df, c)) in ("int", "bool", "string", "date")]
+                if not cols or nrow < 2: return
+                gcol = rng.choice(cols)
+                vcol = rng.choice(names)
+                form = rng.choice(["column", "len1-column", "len1-list", "scalar", "wrong-column", "wrong-list"])
+                if form in ("len1-list", "scalar") and canon.dtype_kind(dict.__getitem__(df, vcol)) in ("object", "bytes", "other"):
+                    form = "len1-column"       # an object element may itself be a sequence: not a length-one value once unwrapped
+                fn = {"column": lambda d: d[vcol], "len1-column": lambda d: d[vcol].head(1), "len1-list": lambda d: [d[vcol][0]], "scalar": lambda d: d[vcol][0],
+                      "wrong-column": lambda d: d[vcol].concat(d[vcol]), "wrong-list": lambda d: list(range(d.nrow + 1))}[form]
+                pre = canon.frame_cells(df)
+                was_grouped = tuple(getattr(df, "_group_colnames", ()) or ())
+                try:
+                    out = df.copy().group_by(gcol).modify(zz9=fn)
+                    failed = None
+                except Exception as e:
+                    out, failed = None, e
+                if form.startswith("wrong"):
+                    if failed is None:
+                        self.mon.violate("C01", "grouped-modify:wrong-length-accepted", f"group_by({gcol!r}).modify with a {form} result did not raise; zz9 = {canon.short(canon.col_cells(dict.__getitem__(out, 'zz9')), 300)} frame {canon.short(pre, 400)}")
+                    self.mon.count("grouped-modify-wrong-length-rejected")
+                elif failed is not None:
+                    self.mon.violate("C01", f"grouped-modify:{form}:raised:{exc_name(failed)}", f"group_by({gcol!r}).modify(zz9=<{form} of {vcol!r}>) raised {failed!r}; frame {canon.short(pre, 400)}")
+                else:
+                    self.mon.check_frame(out, ("grouped_lengths_modify", "result"), self.builtin)
+                    first = {}
+                    exp = []
+                    for gk, v in zip(pre[gcol], pre[vcol]):
+                        first.setdefault(gk, v)
+                        exp.append(v if form == "column" else first[gk])
+                    got = canon.col_cells(dict.__getitem__(out, "zz9"))
+                    if not canon.cells_eq(got, exp, widen=True):
+                        self.mon.violate("C01", f"grouped-modify:{form}:not-broadcast-within-group", f"group_by({gcol!r}).modify(zz9=<{form} of {vcol!r}>): {canon.short(got, 300)} expected {canon.short(exp, 300)}; frame {canon.short(pre, 400)}")
+                    self.mon.count("grouped-modify-lengths-checked")
+                if canon.frame_cells(df) != pre:
+                    self.mon.violate("C06", "grouped_lengths_modify:mutated-operand", f"receiver changed: {canon.short(pre, 300)} -> {canon.short(canon.frame_cells(df), 300)}")
+                self.trace.append(f"{i}:grouped_lengths_modify:{form}")
+                self.ok_ops[op] = self.ok_ops.get(op, 0) + 1
+                return
             elif op in ("delitem", "delattr", "pop"):
                 cands = names if op != "delattr" else [n for n in names if n.isidentifier() and n not in self.builtin]
                 if not cands: return
@@ -413,8 +515,8 @@ class Program:
                     rng.shuffle(new)
                 elif r < 0.55 and len(names) >= 2:
                     # fewer names than columns: the leading columns are renamed positionally, the rest keep name and place
-                    k = rng.randint(1, len(names) - 1)
-                    fresh = [n for n in ["n1", "n2", "n3", "n4", "n5"] if n not in names]
+                    fresh = [n for n in ["n1", "n2", "n3", "n4", "n5", "n6", "n7", "n8", "n9", "n10", "n11", "n12"] if n not in names]
+                    k = rng.randint(1, min(len(names) - 1, len(fresh)))
                     new = fresh[:k] + names[k:]
                     partial = fresh[:k]
                 else:
